@@ -10,7 +10,8 @@ package atpcs
 //	rs              call ReadSchema (synchronously)
 //	exec R To From  start Execute for run R in its own goroutine (To/From: pass signal channels)
 //	join R          wait for that Execute to return
-//	sig R SR        send a signal carrying run ID SR into R's signalsToStep channel
+//	sig R SR        send a signal carrying run ID SR into R's signalsToStep channel (Unenc > 0: its
+//	                data holds a value the CBOR encoder refuses, so the write fails before any byte)
 //	csig R          close R's signalsToStep channel
 //	close           call Close synchronously; aclose: in a goroutine; jclose: wait for it
 //	await N         wait until the server has consumed N client messages
@@ -128,6 +129,8 @@ type Job struct {
 	Fault     *Fault  `json:"fault,omitempty"`
 	// WriteFailAfter >= 0: the client-to-server writer fails from the (n+1)-th write on
 	WriteFailAfter int `json:"wfail"`
+	// WriteFailOnce: only that one write (number WriteFailAfter+1) fails, later writes succeed
+	WriteFailOnce bool `json:"wfailonce,omitempty"`
 	// WriteFailDeliver: the first failing write is a write whose bytes DO reach the peer; it then
 	// stays pending until the director opens the gate "write" and returns an error (a write side
 	// that fails independently: the peer already acts on the message the client believes lost)
